@@ -199,7 +199,7 @@ class RawTla:
 
 
 def run_tlc(module: str, cfg_path: str | None = None, *, cfg: dict | None = None, workers: int = 1,
-            timeout: int = 600, dump: bool = False, simulate: str | None = None, depth: int | None = None,
+            timeout: int = 3000, dump: bool = False, simulate: str | None = None, depth: int | None = None,
             seed: int | None = None, env: dict | None = None, extra: list[str] | None = None,
             heap: str = "3g", continue_: bool = False, coverage: bool = False, dfs: bool = False,
             name: str | None = None) -> TlcResult:
@@ -301,7 +301,7 @@ def shard_jobs(module: str, cfg: dict, nshards: int, which=None, shard_const="Sh
 
 
 def validate_trace(module: str, records: list[dict], *, nshards: int = 16, cfg: dict | None = None,
-                   timeout: int = 900, env: dict | None = None) -> list[tuple[dict, dict]]:
+                   timeout: int = 3000, env: dict | None = None) -> list[tuple[dict, dict]]:
     """code -> spec for independent records: write the records as ndjson shards, let TLC evaluate the
     trace module on every record (one initial state per record, the verdict is a state variable)
     and return [(record, state)] in input order, state = the dumped TLC state (l, verdict, ...)."""
